@@ -9,7 +9,7 @@
    lo <= hi, at least one grid point, strictly increasing, all inside [lo, hi].
    [nthR i l] is [nth i l 0]. *)
 From Coq Require Import ZArith Reals List Bool.
-From Verif Require Import Base.Num Base.Vec C14.Model C14.Proofs C14.ProofsIndex C14.ProofsUniform.
+From Verif Require Import Base.Num Base.Vec C14.Model C14.Proofs C14.ProofsIndex C14.ProofsUniform C14.ProofsSlice.
 Import ListNotations.
 Local Open Scope R_scope.
 
@@ -203,3 +203,88 @@ Theorem completed_partition_has_the_requested_cell_side :
   xmin < xmax /\ cell_side (mkAxis xmin xmax (ugrid_axis n xmin xmax fl)) = Some dx.
 Proof. exact consistent_side. Qed.
 Print Assumptions completed_partition_has_the_requested_cell_side.
+
+(* ------------------------------------------------------------------ *)
+(* T1. __getitem__, one axis.  After normalized_index_expression every entry is a slice
+   a:b:c; Python's slice arithmetic (slice_adjust = PySlice_AdjustIndices) turns it into
+   (s, e, k).  For every valid axis and every slice with positive step the code either raises
+   IndexError (empty hull, e <= s) or returns the axis [sub_ax ax s e k], which is again a
+   VALID axis (so all tiling theorems above apply to the result): *)
+Theorem getitem_slice_per_axis : forall (ax : axis R) (a b c : option Z) (s e k : Z),
+  valid ax -> slice_adjust (zlen (a_cs ax)) (a, b, c) = Some (s, e, k) -> (0 < k)%Z ->
+  (e <= s)%Z /\ sub_limits ax (ISlice a b c) = IndexErr
+  \/ (s < e)%Z /\
+     sub_limits ax (ISlice a b c) = Ok (a_lo (sub_ax ax s e k), a_hi (sub_ax ax s e k)) /\
+     sub_axis ax (ISlice a b c) (a_lo (sub_ax ax s e k), a_hi (sub_ax ax s e k)) = Ok (sub_ax ax s e k) /\
+     valid (sub_ax ax s e k).
+Proof. exact getitem_axis_slice. Qed.
+Print Assumptions getitem_slice_per_axis.
+
+(* unit step (also every integer index): the grid points AND the cells of the result are
+   exactly grid points / cells s .. e-1 of the original. *)
+Theorem getitem_unit_step_selects_exactly_the_cells : forall (ax : axis R) (s e : Z),
+  valid ax -> (0 <= s)%Z -> (s < e)%Z -> (e <= zlen (a_cs ax))%Z ->
+  let ax' := sub_ax ax s e 1 in
+  length (a_cs ax') = Z.to_nat (e - s) /\
+  (forall j, (j < Z.to_nat (e - s))%nat -> nthR j (a_cs ax') = nthR (Z.to_nat s + j) (a_cs ax)) /\
+  (forall j, (j <= Z.to_nat (e - s))%nat -> nthR j (bdry_vec ax') = nthR (Z.to_nat s + j) (bdry_vec ax)).
+Proof. exact getitem_axis_unit. Qed.
+Print Assumptions getitem_unit_step_selects_exactly_the_cells.
+
+(* any step k >= 1: the result has the selected GRID POINTS x_(s + j k) and covers the hull
+   [b_s, b_e] of start:stop (the documented behaviour). *)
+Theorem getitem_step_partial : forall (ax : axis R) (s e k : Z),
+  valid ax -> (0 <= s)%Z -> (s < e)%Z -> (e <= zlen (a_cs ax))%Z -> (0 < k)%Z ->
+  let ax' := sub_ax ax s e k in
+  valid ax' /\
+  a_lo ax' = nthR (Z.to_nat s) (bdry_vec ax) /\ a_hi ax' = nthR (Z.to_nat e) (bdry_vec ax) /\
+  length (a_cs ax') = Z.to_nat (range_len s e k) /\
+  forall j, (j < Z.to_nat (range_len s e k))%nat ->
+    nthR j (a_cs ax') = nthR (Z.to_nat (s + Z.of_nat j * k)) (a_cs ax).
+Proof. exact getitem_axis_step. Qed.
+Print Assumptions getitem_step_partial.
+(* Full statement "the cells of p[a:b:k] are exactly the selected cells" is FALSE of the
+   faithful model for k > 1 (finding C14/getitem-step-slice-cells; documented: p[::2] keeps max_pt). *)
+Theorem getitem_step_cells_refuted :
+  exists (ax : axis R), valid ax /\ nthR 1 (bdry_vec (sub_ax ax 0 4 2)) <> nthR 1 (bdry_vec ax).
+Proof. exact stepped_slice_cells_refuted. Qed.
+
+(* integers: every i in [-n, n) becomes the one-cell slice i' : i'+1 (i' = i mod n) under both
+   variants of the bounds test; p[i] is exactly cell i' with its grid point. *)
+Theorem int_index_normalisation : forall (strict its : bool) (i n : Z) (l : list item) (sh : list Z),
+  (- n <= i < n)%Z ->
+  norm_ints strict its (IInt i :: l) (n :: sh) =
+  bind (norm_ints strict its l sh) (fun r =>
+    Ok ((if its then let i' := (if i <? 0 then i + n else i)%Z in ISlice (Some i') (Some (i' + 1)%Z) None
+         else IInt i) :: r)).
+Proof. exact norm_int_in_range. Qed.
+Theorem getitem_int_is_that_cell : forall (ax : axis R) (i : Z), valid ax -> (0 <= i < zlen (a_cs ax))%Z ->
+  let it := ISlice (Some i) (Some (i + 1)%Z) None in
+  let ax' := sub_ax ax i (i + 1) 1 in
+  sub_limits ax it = Ok (a_lo ax', a_hi ax') /\ sub_axis ax it (a_lo ax', a_hi ax') = Ok ax' /\
+  valid ax' /\
+  a_cs ax' = [nthR (Z.to_nat i) (a_cs ax)] /\
+  bdry_vec ax' = [nthR (Z.to_nat i) (bdry_vec ax); nthR (S (Z.to_nat i)) (bdry_vec ax)].
+Proof. exact getitem_axis_int. Qed.
+Print Assumptions getitem_int_is_that_cell.
+(* out-of-range integers: the repaired bounds test (strict = true) rejects all of them;
+   the code at hand (strict = false, measured by the harness) lets i < -n through
+   (finding C14/getitem-int-below-minus-n: p[-5] on 3 cells returns cell 1). *)
+Theorem int_index_out_of_range_rejected_partial : forall (its : bool) (i n : Z) (l : list item) (sh : list Z),
+  (i < - n \/ n <= i)%Z -> (0 <= n)%Z -> norm_ints true its (IInt i :: l) (n :: sh) = IndexErr.
+Proof. exact norm_int_out_of_range_strict. Qed.
+Theorem int_index_below_minus_n_refuted :
+  norm_ints false true [IInt (-5)] [3%Z] = Ok [ISlice (Some (-2)%Z) (Some (-1)%Z) None].
+Proof. exact norm_int_below_minus_n_accepted. Qed.
+
+(* T1. p[p.index(x)] extracts the cell in which x lies. *)
+Theorem index_then_getitem_extracts_the_cell : forall (ax : axis R) (x : R),
+  valid ax -> a_lo ax <= x -> x <= a_hi ax ->
+  let i := index_axis ax x in
+  let ax' := sub_ax ax i (i + 1) 1 in
+  (0 <= i < zlen (a_cs ax))%Z /\
+  sub_limits ax (ISlice (Some i) (Some (i + 1)%Z) None) = Ok (a_lo ax', a_hi ax') /\
+  sub_axis ax (ISlice (Some i) (Some (i + 1)%Z) None) (a_lo ax', a_hi ax') = Ok ax' /\
+  valid ax' /\ length (a_cs ax') = 1%nat /\ a_lo ax' <= x <= a_hi ax'.
+Proof. exact index_then_getitem. Qed.
+Print Assumptions index_then_getitem_extracts_the_cell.
